@@ -22,6 +22,7 @@ from snaxc.accelerators.acc_context import AccContext
 from snaxc.dialects.dart import StreamingRegionOpBase
 from snaxc.dialects.pipeline import IndexOp, PipelineOp, StageOp, YieldOp
 from snaxc.dialects.snax import ClusterSyncOp
+from snaxc.transforms.pipeline.pipeline_canonicalize_for import extract_cst_index
 from snaxc.util.dispatching_rules import dispatch_to_compute, dispatch_to_dm
 
 
@@ -51,7 +52,10 @@ class ConstructPipeline(RewritePattern):
 
     @op_type_rewrite_pattern
     def match_and_rewrite(self, op: ForOp, rewriter: PatternRewriter):
-        # TODO: only apply for for loops with lb 0 and step 1
+        # the unrolled pipeline numbers the iterations 0, 1, 2, ...:
+        # only apply for for loops with lb 0 and step 1
+        if extract_cst_index(op.lb) != 0 or extract_cst_index(op.step) != 1:
+            return
 
         # no nested for loop allowed
         for operation in op.walk():
@@ -109,6 +113,11 @@ class ConstructPipeline(RewritePattern):
 
         # a valid pipeline has at least two stages
         if len(stages) < 2:
+            return
+
+        # filling and draining the pipeline takes (number of stages - 1) iterations
+        trip_count = extract_cst_index(op.ub)
+        if trip_count is not None and trip_count < len(stages) - 1:
             return
 
         # at this point, the correct pipeline is detected, now we should create the
